@@ -1123,7 +1123,8 @@ impl Walrus {
             let mut target = PersistTarget::None;
 
             let mut update_state = |info: &mut ColReaderInfo| {
-                if checkpoint {
+                // an offset-addressed read never moves the shared cursor
+                if checkpoint && start_offset.is_none() {
                     let mut should_persist_disk = true;
 
                     if let ReadConsistency::AtLeastOnce { persist_every } = self.read_consistency {
